@@ -1,7 +1,187 @@
-// Package c02 interprets the C02 op language against the real packages (stub).
+// Package c02 interprets the C02 op language against the real packages: flow.LoadRules + api.Entry
+// under a virtual clock; `par` parks goroutines at the yield point chain.between-check-and-stat.
 package c02
 
-import "verifharness/internal/vh"
+import (
+	"fmt"
+	"strings"
 
-// New returns the interpreter for C02.
-func New() vh.Interp { return nil }
+	sentinel "github.com/alibaba/sentinel-golang/api"
+	"github.com/alibaba/sentinel-golang/core/base"
+	"github.com/alibaba/sentinel-golang/core/flow"
+	"github.com/alibaba/sentinel-golang/core/stat"
+	"github.com/alibaba/sentinel-golang/util/verifhook"
+	"verifharness/internal/vh"
+)
+
+const hookPoint = "chain.between-check-and-stat"
+
+type thread struct {
+	resume chan struct{}
+	parked chan struct{}
+	done   chan string
+	state  int // 0 = not started, 1 = parked after the check phase, 2 = finished
+	result string
+}
+
+type Interp struct {
+	clk    *vh.Clock
+	rules  []*flow.Rule
+	loaded bool
+	cur    *thread // the goroutine currently allowed to run (nil outside `par`)
+}
+
+func New() vh.Interp {
+	vh.Silence()
+	it := &Interp{clk: vh.NewClock(1_900_000_000_000)}
+	verifhook.Sched = func(point string) {
+		if point != hookPoint || it.cur == nil {
+			return
+		}
+		t := it.cur
+		t.parked <- struct{}{}
+		<-t.resume
+	}
+	return it
+}
+
+func (it *Interp) Reset() {
+	if _, err := flow.LoadRules(nil); err != nil {
+		panic(err)
+	}
+	stat.ResetResourceNodeMap()
+	it.rules = nil
+	it.loaded = false
+	it.cur = nil
+}
+
+func resName(s string) string { return "r" + s }
+
+func parseRule(s string) *flow.Rule {
+	f := strings.Split(s, ",")
+	if len(f) != 4 {
+		panic("bad rule " + s)
+	}
+	thr, ok := vh.ParseFBits(f[1])
+	if !ok {
+		panic("bad threshold " + f[1])
+	}
+	r := &flow.Rule{
+		Resource:               resName(f[0]),
+		TokenCalculateStrategy: flow.Direct,
+		ControlBehavior:        flow.Reject,
+		Threshold:              thr,
+		StatIntervalInMs:       uint32(vh.U(f[2])),
+	}
+	if f[3] != "-" {
+		r.RelationStrategy = flow.AssociatedResource
+		r.RefResource = resName(f[3])
+	}
+	return r
+}
+
+func (it *Interp) decision(e *base.SentinelEntry, b *base.BlockError) string {
+	if b == nil {
+		if e != nil {
+			e.Exit()
+		}
+		return "pass"
+	}
+	if b.BlockType() != base.BlockTypeFlow {
+		return "block " + b.BlockType().String()
+	}
+	idx := -1
+	for i, r := range it.rules {
+		if base.SentinelRule(r) == b.TriggeredRule() {
+			idx = i
+		}
+	}
+	return fmt.Sprintf("block flow %d", idx)
+}
+
+func (it *Interp) Step(t []string, op string) string {
+	switch t[0] {
+	case "clock":
+		it.clk.SetMs(vh.U(t[1]))
+		return ""
+	case "load":
+		n := int(vh.U(t[1]))
+		if it.loaded || len(t) != 2+n {
+			panic("bad load")
+		}
+		rules := make([]*flow.Rule, 0, n)
+		for _, s := range t[2:] {
+			rules = append(rules, parseRule(s))
+		}
+		it.rules = rules
+		it.loaded = true
+		if _, err := flow.LoadRules(rules); err != nil {
+			return "err"
+		}
+		return fmt.Sprintf("ok %d", len(flow.GetRules()))
+	case "entry":
+		e, b := sentinel.Entry(resName(t[1]), sentinel.WithBatchCount(uint32(vh.U(t[2]))))
+		return it.decision(e, b)
+	case "par":
+		return it.par(resName(t[1]), strings.Split(t[2], ","), strings.Split(t[3], ","))
+	case "sum":
+		n := stat.GetResourceNode(resName(t[1]))
+		if n == nil {
+			return "-"
+		}
+		return fmt.Sprint(n.GetSum(base.MetricEventPass))
+	}
+	panic("bad op " + op)
+}
+
+// par runs len(bs) entries of res as goroutines under the given schedule: the first occurrence of a
+// thread id lets that goroutine run its prepare and rule-check slots (it parks at the yield point), the
+// second lets it run the statistic slots and Exit.
+func (it *Interp) par(res string, bs, sched []string) string {
+	ths := make([]*thread, len(bs))
+	for i := range bs {
+		th := &thread{resume: make(chan struct{}), parked: make(chan struct{}), done: make(chan string)}
+		ths[i] = th
+		batch := uint32(vh.U(bs[i]))
+		go func() {
+			<-th.resume
+			e, b := sentinel.Entry(res, sentinel.WithBatchCount(batch))
+			th.done <- it.decision(e, b)
+		}()
+	}
+	for _, s := range sched {
+		i := int(vh.U(s))
+		if i >= len(ths) {
+			panic("bad schedule")
+		}
+		th := ths[i]
+		switch th.state {
+		case 0:
+			it.cur = th
+			th.resume <- struct{}{}
+			select {
+			case <-th.parked:
+				th.state = 1
+			case r := <-th.done: // the hook was not reached (should not happen)
+				th.result = r + "!nohook"
+				th.state = 2
+			}
+			it.cur = nil
+		case 1:
+			it.cur = nil
+			th.resume <- struct{}{}
+			th.result = <-th.done
+			th.state = 2
+		default:
+			panic("bad schedule")
+		}
+	}
+	out := make([]string, len(ths))
+	for i, th := range ths {
+		if th.state != 2 {
+			panic("bad schedule: unfinished thread")
+		}
+		out[i] = th.result
+	}
+	return "[" + strings.Join(out, ",") + "]"
+}
